@@ -2,7 +2,7 @@
    into interface{} / Raw by the real Decoder (harness/cmd/c02) against the four wire models,
    through the dispatcher of C14/Corr. *)
 From Coq Require Import List NArith ZArith Bool.
-From Verif Require Import Base.Outcome C14.Corr.
+From Verif Require Import Base.Outcome C14.Corr C02.Alloc.
 Import ListNotations.
 Open Scope N_scope.
 
@@ -15,8 +15,24 @@ Record case2 := mkc2 {
   c2class : N;
   c2nread : N }.
 
+(* kind 9: decInferLen(clen, maxlen, unit) with bytes = [sign of clen (1 = negative); |clen|; maxlen; unit], class = result;
+   kind 10: usableByteSlice sizes with bytes = [cap(bs); sign of slen; |slen|], class = len(out), nread = 1 if made new *)
+Definition sgn (s v : N) : Z := if s =? 1 then (- Z.of_N v)%Z else Z.of_N v.
+
 Definition check_case2 (c : case2) : bool :=
-  agrees (run (c2fmt c) (c2kind c) (c2opts c) (c2bytes c)) (c2class c) (c2nread c).
+  if c2kind c =? 9 then
+    match c2bytes c with
+    | [s; v; maxlen; unit] => (decInferLen (sgn s v) (Z.of_N maxlen) (Z.of_N unit) =? Z.of_N (c2class c))%Z
+    | _ => false
+    end
+  else if c2kind c =? 10 then
+    match c2bytes c with
+    | [bc; s; v] =>
+        let r := usable_len (Z.of_N bc) (sgn s v) in
+        (fst r =? Z.of_N (c2class c))%Z && Bool.eqb (snd r) (c2nread c =? 1)
+    | _ => false
+    end
+  else agrees (Verif.C14.Corr.run (c2fmt c) (c2kind c) (c2opts c) (c2bytes c)) (c2class c) (c2nread c).
 
 Definition mismatches2 (cs : list case2) : list N :=
   map c2id (filter (fun c => negb (check_case2 c)) cs).
